@@ -125,6 +125,9 @@ WorkLookup == (phase = "run" /\ last.adv /\ last.inner > 2) => last.cbs <= last.
 SigmaTok == << <<64>>, <<65>>, <<66>>, <<67>>, <<68>>, <<16, 5>>, <<17, 5, 0>>, <<20, 1, 97>>, <<20, 1, 98>>, <<20, 0>>,
                <<21, 1, 0, 97>>, <<0>>, <<17, 128>>, <<24, 1, 170>>, <<20, 5, 97>>, <<70, 1, 2>> >>
 SigmaByte == << <<64>>, <<65>>, <<66>>, <<67>>, <<68>>, <<16>>, <<17>>, <<20>>, <<21>>, <<24>>, <<70>>, <<0>>, <<1>>, <<127>>, <<128>>, <<255>> >>
+\* a small alphabet that can nest within two tokens (for the uninitialised-memory scenarios of C18)
+SigmaNest == << <<64>>, <<65>>, <<66>>, <<67>>, <<16, 5>>, <<20, 1, 97>> >>
+FillsFF == {255}
 NamesH == {<<97>>, <<>>, <<99>>}
 FillsAll == {0, 255, 165, 1, 200}
 FillsQ == {0, 255, 200}
